@@ -233,10 +233,7 @@ func Catch(f func()) (c Caught) {
 		if r := recover(); r != nil {
 			c.Panicked = true
 			c.Value = r
-			c.Stack = string(debug.Stack())
-			if len(c.Stack) > 3000 {
-				c.Stack = c.Stack[:3000]
-			}
+			c.Stack = cleanStack(string(debug.Stack()))
 		}
 	}()
 	f()
@@ -260,4 +257,38 @@ func OpenFinding(id string) bool {
 		}
 	}
 	return false
+}
+
+// cleanStack reduces a stack dump to "function (file:line)" lines without
+// goroutine ids, argument values or pc offsets, so that the same failure gives
+// the same text on every run (rapid only shrinks failures whose message is
+// reproducible).
+func cleanStack(st string) string {
+	lines := strings.Split(st, "\n")
+	var out []string
+	for i := 0; i+1 < len(lines); i++ {
+		l := lines[i]
+		if strings.HasPrefix(l, "goroutine ") || l == "" || strings.HasPrefix(l, "\t") {
+			continue
+		}
+		fn := l
+		if j := strings.LastIndex(fn, "("); j > 0 {
+			fn = fn[:j]
+		}
+		if strings.HasPrefix(fn, "runtime/debug.") || strings.HasPrefix(fn, "verifharness/vlib.Catch") || strings.HasPrefix(fn, "panic") || strings.HasPrefix(fn, "runtime.") {
+			continue
+		}
+		if strings.HasPrefix(fn, "pgregory.net/rapid.") || strings.HasPrefix(fn, "testing.") {
+			break
+		}
+		loc := strings.TrimSpace(lines[i+1])
+		if j := strings.Index(loc, " +0x"); j > 0 {
+			loc = loc[:j]
+		}
+		out = append(out, "  "+fn+" ("+loc+")")
+		if len(out) >= 12 {
+			break
+		}
+	}
+	return strings.Join(out, "\n")
 }
